@@ -1257,12 +1257,13 @@ func (st *State) mapGet(mo *MapObj, key Value) (Value, *Term, error) {
 		has = False
 		val = st.zeroValue(vt)
 	}
+	kt = st.norm(kt)
 	for _, e := range mo.Entries {
 		ek, err := st.keyTerm(e.K)
 		if err != nil {
 			return nil, nil, err
 		}
-		c := Eq(ek, kt)
+		c := Eq(st.norm(ek), kt)
 		if c.IsFalse() {
 			continue
 		}
